@@ -413,11 +413,13 @@ def run(ctx):
     for batch in core.batched(_jobs_from_records(tlc.iter_records(r.stdout_path), ctx.seed, full_mod), 4000):
         for res in core.parallel(_tree_job, batch, chunk=100):
             judge.add(res)
-            if shown < 2 and res["outs"] and res["theme"] in ("table", "attrs"):
-                shown += 1
-                x = res["outs"][len(res["outs"]) // 2]
-                ctx.sample({"spec_to_code_tree": treeproj.show(res["tree"]).replace("\n", " | ")[:300], "options": rt.show_opts(x["rep"]),
-                            "real_output": x["text"][:200], "reparsed_equal": x["ok"]})
+            if shown < 2 and len(res["outs"]) >= 6 and res["theme"] in ("table", "select", "lists") and _crc(res["tree"]) % 40 == 0:
+                xs = [x for x in res["outs"] if x["text"] and x["rep"]["omit_optional_tags"] and x["ok"]]
+                if xs:
+                    shown += 1
+                    x = xs[0]
+                    ctx.sample({"spec_to_code_tree": treeproj.show(res["tree"]).replace("\n", " | ")[:400], "options": rt.show_opts(x["rep"]),
+                                "real_output": x["text"][:300], "reparsed_equal_by_real_parser_both_builders": x["ok"]})
     judge.flush()
     gen_stats = dict(judge.stats)
     # ---- 3. code -> spec on wider inputs ----
